@@ -20,6 +20,9 @@ type Node = map[string]interface{}
 
 const MaxEnum = 128
 
+// Cross enables the list-upgrade cross checks (they re-walk subtrees: switch off for deep/cyclic inputs).
+var Cross = true
+
 func bytesOf(b []byte) []interface{} {
 	r := make([]interface{}, len(b))
 	for i, x := range b {
@@ -207,7 +210,7 @@ func WalkList(p capnp.Ptr, l capnp.List, depth int) Node {
 					bad(n, fmt.Sprintf("primitive-list view of struct list element %d differs from the element's first data field", i))
 				}
 			}
-			if pcnt >= 1 {
+			if pcnt >= 1 && Cross {
 				q, err := capnp.PointerList{List: l}.At(i)
 				var viaList Node
 				if err != nil {
